@@ -29,7 +29,11 @@ def parse_harness_file(path):
     inject = None
     harnesses = []
     oracle = None
+    tolerate = []
     for l in txt.split('\n'):
+        mm = re.match(r'//@tolerate\s+(\S+)', l)       # //@tolerate <function>: failed checks located in that (tool-library) function are not counted
+        if mm:
+            tolerate.append(mm.group(1))
         mm = re.match(r'//@oracle\s+(\S+)\s+(\S+)\s+(\S+)', l)     # //@oracle <file in replay/> <test path> <inject target>
         if mm:
             oracle = {'file': mm.group(1), 'test': mm.group(2), 'inject': mm.group(3)}
@@ -43,6 +47,7 @@ def parse_harness_file(path):
         raise RuntimeError('%s: no //@inject directive' % path)
     for h in harnesses:
         h['oracle'] = oracle
+        h['tolerate'] = tolerate
         if not re.search(r'\b%s\b' % h['name'], txt.split('#[cfg(kani)]', 1)[-1]):
             raise RuntimeError('%s: //@harness %s not defined in the file' % (path, h['name']))
     stubs = sorted(set(re.findall(r'#\[kani::stub\(\s*([^,]+?)\s*,', txt)))
@@ -162,6 +167,11 @@ def merge_json(results, js):
         covers = [c for c in checks if c.get('category') == 'cover']
         props = [c for c in checks if c.get('category') != 'cover']
         failed = [c for c in props if c.get('status') == 'Failure']
+        tol = r.get('tolerate') or []
+        ignored = [c for c in failed if c.get('function') in tol]
+        if ignored:
+            failed = [c for c in failed if c.get('function') not in tol]
+            r['tolerated'] = ['%s: %s' % (c.get('function'), c.get('description')) for c in ignored]
         r['undetermined'] = len([c for c in props if c.get('status') == 'Undetermined'])
         r['checks'] = len(props)
         r['n_failed'] = len(failed)
@@ -173,6 +183,8 @@ def merge_json(results, js):
         r['time_s'] = round(j.get('duration_ms', 0) / 1000.0, 2)
         st = j.get('status')
         r['status'] = {'Success': 'SUCCESSFUL', 'Failure': 'FAILED'}.get(st, r.get('status') if st is None else st.upper())
+        if r['status'] == 'FAILED' and ignored and not failed and not r['undetermined']:
+            r['status'] = 'SUCCESSFUL'      # only tolerated tool-model checks failed
         if r['status'] == 'FAILED' and not checks:
             r['status'] = 'TIMEOUT'      # CBMC killed by --harness-timeout (or crashed): no check results
         if name in cb:
